@@ -7,6 +7,10 @@ depend on anybody's imagination).
                                          quick check is run from $VERIF_DIR (default /verif), the file is always restored.
                                          Results are appended to $OUT (default /tmp/mutate_results.jsonl).
   mutate.py list [ID ...]                number of candidate mutants per property
+  mutate.py rerun <results.jsonl> <out.jsonl>
+                                         re-apply every mutant of <results.jsonl> whose verdict was not "killed"/"unusable" and
+                                         run the property's own check and then every other check whose anchored files include
+                                         the mutated file, stopping at the first that reports a violation ("killed_by").
 
 A mutant is killed (check exit 1), survived (exit 0) or unusable (exit 2: does not compile / inconclusive).  Survivors are
 either equivalent mutants or gaps; they are reviewed by hand (DESIGN section 9.3).  Use tools/snapshot_pair.sh to keep
@@ -89,7 +93,7 @@ def candidates(pid, ranges):
     return cands
 
 
-def run_one(pid, c):
+def run_one(pid, c, checks=None):
     path = os.path.join(REPO, c["file"])
     src = open(path).read()
     lines = src.split("\n")
@@ -101,14 +105,21 @@ def run_one(pid, c):
         e = dict(os.environ)
         e["CARGO_NET_OFFLINE"] = "true"
         # a mutant may hang inside the library: own process group, 10 minute budget, then kill the whole group
-        pr = subprocess.Popen([os.path.join(V, "check"), pid, "quick"], cwd=V, env=e, stdout=subprocess.PIPE, stderr=subprocess.STDOUT, text=True, start_new_session=True)
-        try:
-            out, _ = pr.communicate(timeout=600)
-            rc = pr.returncode
-        except subprocess.TimeoutExpired:
-            os.killpg(pr.pid, 9)
-            pr.communicate()
-            rc, out = 2, "timeout (hang)"
+        killed_by = None
+        for chk in (checks or [pid]):
+            pr = subprocess.Popen([os.path.join(V, "check"), chk, "quick"], cwd=V, env=e, stdout=subprocess.PIPE, stderr=subprocess.STDOUT, text=True, start_new_session=True)
+            try:
+                out, _ = pr.communicate(timeout=600)
+                rc = pr.returncode
+            except subprocess.TimeoutExpired:
+                os.killpg(pr.pid, 9)
+                pr.communicate()
+                rc, out = 2, "timeout (hang)"
+            if rc == 1:
+                killed_by = chk
+                break
+            if rc != 0 and chk == pid and checks and len(checks) > 1:
+                continue
     finally:
         open(path, "w").write(src)
         subprocess.run(["rm", "-rf", os.path.join(V, "replays", "new")])
@@ -116,7 +127,7 @@ def run_one(pid, c):
     verdict = {0: "survived", 1: "killed"}.get(rc, "unusable")
     if rc == 2 and "does not build" not in out:
         verdict = "hang" if out.startswith("timeout") else "inconclusive"
-    return {"property": pid, "verdict": verdict, "rc": rc, "seconds": round(time.time() - t0, 1), "message": msg[0][:300] if msg else None, **c}
+    return {"property": pid, "verdict": verdict, "killed_by": killed_by, "rc": rc, "seconds": round(time.time() - t0, 1), "message": msg[0][:300] if msg else None, **c}
 
 
 def main():
@@ -126,6 +137,25 @@ def main():
         ids = sys.argv[2:] or sorted(anc)
         for pid in ids:
             print(pid, len(candidates(pid, anc[pid])))
+        return
+    if mode == "rerun":
+        files = {}
+        for l in open(os.path.join(V, "properties.jsonl")):
+            p = json.loads(l)
+            files[p["id"]] = set(p["anchors"].get("files", []))
+        for l in open(sys.argv[2]):
+            r = json.loads(l)
+            if r["verdict"] in ("killed", "unusable"):
+                continue
+            pid = r["property"]
+            c = {k: r[k] for k in ("file", "line", "op", "old", "new")}
+            others = [q for q in sorted(files) if q != pid and c["file"] in files[q]]
+            rr = run_one(pid, c, [pid] + others)
+            rr["first_verdict"] = r["verdict"]
+            with open(sys.argv[3], "a") as f:
+                f.write(json.dumps(rr) + "\n")
+            print("%s %-10s by=%s %s:%d  %s  | %s" % (pid, rr["verdict"], rr["killed_by"], c["file"], c["line"], c["op"], (rr["message"] or "")[:120]), flush=True)
+        subprocess.run(["git", "-C", REPO, "checkout", "--", "."])
         return
     k, seed = int(sys.argv[2]), int(sys.argv[3])
     ids = sys.argv[4:] or sorted(anc)
